@@ -122,21 +122,45 @@ mod imp {
             ("positive-offset", "D:20200101120000+05'30'".into(), civil::unix_from_fields(2020, 1, 1, 12, 0, 0, 330)),
         ];
         for (name, s, secs) in forms {
-            let o = Object::string_literal(s.clone());
-            for b in CONSUMERS {
-                out.evaluations += 1;
-                match crate::props::catch(|| consume(b, &o)) {
-                    Err(p) => v.push((format!("spec-form/{}/{}/panic", name, b), format!("{} panicked on {:?}: {}", b, s, p))),
-                    Ok(Err(e)) => v.push((format!("spec-form/{}/{}", name, b), format!("{} cannot parse the specification's {} form {:?}: {}", b, name, s, e))),
-                    Ok(Ok((t, _))) => {
-                        if t != secs {
-                            v.push((format!("spec-form/{}/{}/instant", name, b), format!("{} reads {:?} as {}, it denotes {}", b, s, t, secs)));
-                        }
+            v.extend(check_form(name, &s, secs, out));
+        }
+        v
+    }
+
+    /// one date string in one of the specification's forms, read by every backend
+    pub fn check_form(name: &str, s: &str, secs: i64, out: &mut ShardOut) -> Vec<(String, String)> {
+        let mut v = vec![];
+        let o = Object::string_literal(s.to_string());
+        for b in CONSUMERS {
+            out.evaluations += 1;
+            match crate::props::catch(|| consume(b, &o)) {
+                Err(p) => v.push((format!("spec-form/{}/{}/panic", name, b), format!("{} panicked on {:?}: {}", b, s, p))),
+                Ok(Err(e)) => v.push((format!("spec-form/{}/{}", name, b), format!("{} cannot parse the specification's {} form {:?}: {}", b, name, s, e))),
+                Ok(Ok((t, _))) => {
+                    if t != secs {
+                        v.push((format!("spec-form/{}/{}/instant", name, b), format!("{} reads {:?} as {}, it denotes {}", b, s, t, secs)));
                     }
                 }
             }
         }
         v
+    }
+
+    /// the forms of 7.9.4 for an arbitrary moment: (form name, string, instant it denotes)
+    pub fn form_of(which: u64, secs: i64, off: i32) -> (&'static str, String, i64) {
+        let (y, m, d, h, mi, _s) = civil::fields(secs, off);
+        let sign = if off < 0 { '-' } else { '+' };
+        let (oh, om) = (off.abs() / 60, off.abs() % 60);
+        match which % 5 {
+            0 => ("date-only", format!("D:{:04}{:02}{:02}", y, m, d), civil::unix_from_fields(y, m, d, 0, 0, 0, 0)),
+            1 => ("minute-precision", format!("D:{:04}{:02}{:02}{:02}{:02}{}{:02}'{:02}'", y, m, d, h, mi, sign, oh, om), civil::unix_from_fields(y, m, d, h, mi, 0, off)),
+            2 => ("full", civil::pdf_date(secs, off), secs),
+            3 => ("utc-z", civil::pdf_date_z(secs), secs),
+            _ => {
+                let (y, m, d, h, mi, _) = civil::fields(secs, 0);
+                ("minute-precision-z", format!("D:{:04}{:02}{:02}{:02}{:02}Z", y, m, d, h, mi), civil::unix_from_fields(y, m, d, h, mi, 0, 0))
+            }
+        }
     }
 
     pub fn posix_tz(off_min: i32) -> String {
@@ -243,6 +267,14 @@ pub fn run(cfg: &RunCfg) -> (PropMeta, ShardOut, Map<String, Value>) {
             for (sig, what) in check_one(a, secs, off, &mut o) {
                 o.finding(Finding { signature: format!("C18/{}", sig), what, witness: json!({"kind":"date","backend":a,"secs":secs,"offset_min":off}) });
             }
+            // every fourth sample is also written in one of the forms other producers use and read by every backend
+            if i % 4 == 1 && (1..=9998).contains(&y) {
+                let (name, text, denotes) = form_of(r.below(5), secs, off);
+                o.count(&format!("sampled_form:{}", name));
+                for (sig, what) in check_form(name, &text, denotes, &mut o) {
+                    o.finding(Finding { signature: format!("C18/{}", sig), what, witness: json!({"kind":"spec-form-sample","name":name,"string":text,"secs":denotes}) });
+                }
+            }
             if i == 0 && shard < 2 {
                 o.sample(json!({"backend":a,"unix_seconds":secs,"offset_minutes":off,"expected":if a.ends_with("utc") || a.ends_with("timestamp") { civil::pdf_date_z(secs) } else { civil::pdf_date(secs, off) }}));
             }
@@ -252,7 +284,7 @@ pub fn run(cfg: &RunCfg) -> (PropMeta, ShardOut, Map<String, Value>) {
     out.merge(sampled);
     let meta = PropMeta {
         level: "exploration",
-        rule: "for backends chrono (DateTime<Local> with the offset driven through POSIX TZ strings on fresh threads, DateTime<Utc>), jiff (Zoned with fixed offsets, Timestamp) and time (OffsetDateTime): Object::from(value) must equal the reference PDF date string D:YYYYMMDDHHmmSS+HH'mm' (or ...Z for UTC types) computed by independent civil-date arithmetic, and as_datetime().try_into() with each of the three backends must give the same instant and, for jiff/time, the same offset. All 2,879 offsets -23:59..+23:59 are enumerated at a fixed instant (and two near the ends of the year range) for every offset-carrying backend; instants are sampled over years 0001..9999 incl. leap days and boundaries; the specification's date-only, minute-precision and Z forms are parsed with every backend. distinct = distinct (backend, instant, offset).".into(),
+        rule: "for backends chrono (DateTime<Local> with the offset driven through POSIX TZ strings on fresh threads, DateTime<Utc>), jiff (Zoned with fixed offsets, Timestamp) and time (OffsetDateTime): Object::from(value) must equal the reference PDF date string D:YYYYMMDDHHmmSS+HH'mm' (or ...Z for UTC types) computed by independent civil-date arithmetic, and as_datetime().try_into() with each of the three backends must give the same instant and, for jiff/time, the same offset. All 2,879 offsets -23:59..+23:59 are enumerated at a fixed instant (and two near the ends of the year range) for every offset-carrying backend; instants are sampled over years 0001..9999 incl. leap days and boundaries; the specification's date-only, minute-precision and Z forms are parsed with every backend, for fixed examples and for every fourth sampled moment. distinct = distinct (backend, instant, offset).".into(),
         assumptions: vec!["second precision; local year stays within 0001..9999".into(), "chrono's DateTime<Local> result is converted to the local zone, so only the instant is compared for chrono as consumer".into()],
         exhaustive: false,
         min_distinct: 2000,
@@ -274,6 +306,11 @@ pub fn replay(w: &Value) -> Vec<Finding> {
     let mut o = ShardOut::default();
     let vs = match w.get("kind").and_then(|x| x.as_str()) {
         Some("spec-forms") => imp::spec_forms(&mut o),
+        Some("spec-form-sample") => {
+            let name = w["name"].as_str().unwrap_or("full").to_string();
+            let name: &str = ["date-only", "minute-precision", "full", "utc-z", "minute-precision-z"].iter().find(|x| **x == name).cloned().unwrap_or("full");
+            imp::check_form(name, w["string"].as_str().unwrap_or(""), w["secs"].as_i64().unwrap_or(0), &mut o)
+        }
         Some("date") => {
             let a = w["backend"].as_str().unwrap_or("jiff-zoned").to_string();
             let secs = w["secs"].as_i64().unwrap_or(0);
